@@ -92,7 +92,10 @@ func zzPickSel(label string, small bool) zzSel {
 
 // ZZ_C18_three: three settings (reduced selector alphabet in the quick tier), so that an
 // unusable or losing setting can sit between two others in the precedence order.
-func ZZ_C18_three() { zzC18(3, !nondet.Thorough()) }
+// (Three settings over the full alphabets did not finish within 25 minutes: the thorough tier keeps
+// the reduced alphabets and adds the reconcile-order swaps; the full alphabets are covered for two
+// settings by ZZ_C18_mutex.)
+func ZZ_C18_three() { zzC18(3, true) }
 
 // ZZ_C18_single: a setting alone in its namespace (another namespace holds one more): in error
 // without a reference or with an unusable selector, valid otherwise, whatever the nodes.
